@@ -1101,7 +1101,9 @@ func (r *run) compareReply(exp *expState, pcs []obsPiece, answered bool, where s
 		if w.ID != p.ID {
 			return fmt.Sprintf("%s: %s answered by e%d, the model says e%d", where, p.Key, p.ID, w.ID)
 		}
-		if p.Shown != w.Shown && p.Shown != w.Shown-1 {
+		// exact times in the model; the code is microseconds late (-1) and an RRSIG
+		// expiry has whole-second wall-clock granularity (-2)
+		if p.Shown > w.Shown || p.Shown < w.Shown-2 {
 			return fmt.Sprintf("%s: %s shown TTL %d, the model says %d", where, p.Key, p.Shown, w.Shown)
 		}
 	}
